@@ -20,7 +20,7 @@ $V/build/vh gen --repo /repo --out $V/coq/Gen > $V/build/gen.log 2>&1 || { echo 
 
 cd $V/coq
 { echo "-Q . Verif"; echo "-arg -w -arg -notation-overridden,-deprecated-hint-without-locality,-deprecated-instance-without-locality,-large-nat";
-  find Base Gen Model Proofs Tie Props -name '*.v' 2>/dev/null | LC_ALL=C sort; } > _CoqProject.new
+  find Base Regex Gen Model Proofs Tie Props -name '*.v' 2>/dev/null | LC_ALL=C sort; } > _CoqProject.new
 if cmp -s _CoqProject.new _CoqProject; then rm -f _CoqProject.new; else mv _CoqProject.new _CoqProject; fi
 if [ ! -f Makefile ] || [ _CoqProject -nt Makefile ]; then
   coq_makefile -f _CoqProject -o Makefile > /dev/null 2>&1 || fail coq_makefile
